@@ -789,9 +789,6 @@ func (fc *fnCtx) loopHeader(b *ssa.BasicBlock, c *contract) {
 				}
 			}
 		}
-		// row 0 is the nil object: it has no contents (every access through nil is a failing safety obligation), but a
-		// callee frame `assigns x.f` with x.f == nil havocs it; it never counts as an object the loop must preserve
-		mod = append(mod, "0")
 		entryH := fc.curH.clone()
 		entryAC := loopACe
 		fresh := g.freshHeap(fmt.Sprintf("loop%d", n))
@@ -1111,7 +1108,7 @@ func (g *gen) finishTop(fc *fnCtx) {
 		}
 		if c.hasAssigns && !c.assumedFrame && !g.lite {
 			sc := fc.specCtxEntry()
-			keep := fmt.Sprintf("(and (< r %s) (not (= r 0)))", fc.entryAC) // row 0 (nil) is no object
+			keep := fmt.Sprintf("(< r %s)", fc.entryAC)
 			for _, a := range c.assigns {
 				v, err := sc.term(a)
 				if err != nil {
